@@ -345,7 +345,14 @@ def _str_neighbours(s):
 
 NUM_POOL = [0, 1, 2, 3, 4, 5, 6, 9, 10, 11, 17, 18, 19, 21, 100, -1, -7, 0.5, 1.5, 2.5, -2.5, 3.14, 18.0]
 STR_POOL = ["a", "b", "c", "xyz", "US", "CA", "FR", "", "A", "b1", "zz", "free", "pro", "x"]
-ANY_POOL = ["u1", "u2", "user-42", 7, 42, 3.5, "", "abc", 0, True, None, "00123", -1, 1e300, b"u1", b"user-42", b""]
+import decimal as _decimal
+import fractions as _fractions
+
+# numbers that are not builtin ints / floats (database NUMERIC columns, exact rationals): they print - and therefore hash - as
+# they are, and compare exactly
+EXACT_NUMBERS = [_decimal.Decimal("7.10"), _decimal.Decimal("0.1"), _decimal.Decimal(10 ** 20 + 1), _decimal.Decimal(10 ** 20 + 2), _decimal.Decimal("1E+2"),
+                 _decimal.Decimal("-0"), _fractions.Fraction(1, 3), _fractions.Fraction(1, 10), _fractions.Fraction(7, 1), _fractions.Fraction(9007199254740993, 1)]
+ANY_POOL = ["u1", "u2", "user-42", 7, 42, 3.5, "", "abc", 0, True, None, "00123", -1, 1e300, b"u1", b"user-42", b""] + EXACT_NUMBERS[:4] + EXACT_NUMBERS[6:8]
 
 
 def interesting_values(prog, classes):
@@ -502,6 +509,7 @@ def splitter_values(wild=False):
         st.text(alphabet="abcdefghijklmnopqrstuvwxyz0123456789-_@.", min_size=0, max_size=24),
         _finite_floats(),
         st.sampled_from([float("nan"), float("inf"), float("-inf"), -0.0, 0.0, True, False, None]),
+        st.sampled_from(EXACT_NUMBERS),
     ]
     if wild:
         base += [
